@@ -1042,6 +1042,10 @@ fn sample_packets(ctx: &mut Ctx) -> Vec<(String, Vec<u8>)> {
     out.push(("padding".into(), new_packet(21, &[9u8; 16])));
     out.push(("trust".into(), new_packet(12, &[1, 2, 3])));
     out.push(("user-attribute".into(), new_packet(17, &[18, 1, 16, 0, 1, 1, 0, 0, 0, 0, 0, 0, 0, 0, 0, 0, 0, 0xFF, 0xD8])));
+    // (attribute subpackets of a type the library does not know, in the one-, two- and five-octet length forms)
+    out.push(("user-attribute-unknown".into(), new_packet(17, &[9, 100, 1, 2, 3, 4, 5, 6, 7, 8])));
+    out.push(("user-attribute-unknown-5".into(), new_packet(17, &[255, 0, 0, 0, 9, 100, 1, 2, 3, 4, 5, 6, 7, 8])));
+    out.push(("user-attribute-image-5".into(), new_packet(17, &[255, 0, 0, 0, 18, 1, 16, 0, 1, 1, 0, 0, 0, 0, 0, 0, 0, 0, 0, 0, 0, 0xFF, 0xD8])));
     out.push(("sed".into(), new_packet(9, &[1u8; 40])));
     out.push(("mdc".into(), new_packet(19, &[2u8; 20])));
     out.push(("gnupg-aead".into(), new_packet(20, &[1, 9, 2, 6, 1, 2, 3, 4, 5, 6, 7, 8, 9, 10, 11, 12, 13, 14, 15, 1, 2, 3, 4, 5, 6, 7, 8, 9, 10, 11, 12, 13, 14, 15, 16])));
@@ -1078,6 +1082,11 @@ fn sec_declared(ctx: &mut Ctx, cal: &Calib) {
         vec![0x7F, 0xFF, 0xFF, 0xFF],
         vec![0xFF, 0xFF, 0xFF, 0xFF],
         vec![0xFF, 0xFF, 0xFF, 0xFF, 0xFF],
+        // five-octet length forms announcing 1 MiB / 16 MiB / 256 MiB (an allocation of the announced
+        // size succeeds at these sizes and shows in the peak)
+        vec![0xFF, 0x00, 0x10, 0x00, 0x00],
+        vec![0xFF, 0x01, 0x00, 0x00, 0x00],
+        vec![0xFF, 0x10, 0x00, 0x00, 0x00],
         vec![0xE0 | 30],
     ];
     let mut worst_peak: (usize, String) = (0, String::new());
